@@ -219,7 +219,7 @@ func Main(p *Property) {
 	}
 	if p.RaceHB != nil {
 		for _, sc := range p.Scenarios {
-			if sc.ThoroughOnly && *tier != "thorough" {
+			if (sc.ThoroughOnly && *tier != "thorough") || sc.NoHB {
 				continue
 			}
 			items = append(items, workItem{name: "hb:" + sc.Name, hb: true, sc: sc, nshard: 1})
@@ -476,36 +476,56 @@ func raceChecker(base string) func(e *vrt.Exec) []*sched.Violation {
 			if !strings.Contains(rep, "DATA RACE") {
 				continue
 			}
-			out = append(out, &sched.Violation{Signature: "data-race|" + strings.Join(raceFrames(rep), "|"), Message: "the race detector reported unsynchronised conflicting accesses in this schedule:\n" + tail(strings.TrimSpace(rep), 2500)})
+			frames, harnessOnly := raceFrames(rep)
+			if harnessOnly {
+				continue
+			}
+			out = append(out, &sched.Violation{Signature: "data-race|" + strings.Join(frames, "|"), Message: "the race detector reported unsynchronised conflicting accesses in this schedule:\n" + tail(strings.TrimSpace(rep), 2500)})
 		}
 		return out
 	}
 }
 
-// raceFrames extracts, for each of the two accesses of a report, the innermost function of hive.go.
-func raceFrames(rep string) []string {
-	var frames []string
+// raceFrames extracts, for each of the two accesses of a report, the innermost function of hive.go on its stack.
+// harnessOnly reports that both accesses were made by the harness itself (innermost non-runtime frame in package
+// main or verif/...): the runtime's built-in maps, append and copy report their accesses even from the
+// uninstrumented harness, whose own bookkeeping is shared between controlled threads on purpose.
+func raceFrames(rep string) (frames []string, harnessOnly bool) {
 	lines := strings.Split(rep, "\n")
-	inAccess := false
+	inAccess, needInner := false, false
+	accesses, harness := 0, 0
 	for _, l := range lines {
 		tl := strings.TrimSpace(l)
 		switch {
 		case strings.HasPrefix(tl, "Read at"), strings.HasPrefix(tl, "Write at"), strings.HasPrefix(tl, "Previous read at"), strings.HasPrefix(tl, "Previous write at"),
 			strings.HasPrefix(tl, "Atomic"), strings.HasPrefix(tl, "Previous atomic"):
-			inAccess = true
+			inAccess, needInner = true, true
+			accesses++
 		case tl == "" || strings.HasPrefix(tl, "Goroutine"):
-			inAccess = false
-		case inAccess && strings.Contains(tl, "iotaledger/hive.go/") && strings.HasSuffix(tl, ")") && !strings.HasPrefix(tl, "/"):
-			f := tl[strings.Index(tl, "iotaledger/hive.go/")+len("iotaledger/hive.go/"):]
-			if i := strings.LastIndex(f, "("); i > 0 {
-				f = f[:i]
+			if inAccess && needInner {
+				harness++ // only runtime frames: the caller is uninstrumented code (instrumented callers leave a frame)
+				needInner = false
 			}
-			frames = append(frames, f)
 			inAccess = false
+		case inAccess && strings.HasSuffix(tl, ")") && !strings.HasPrefix(tl, "/"):
+			if needInner && !strings.HasPrefix(tl, "runtime.") && !strings.HasPrefix(tl, "internal/") {
+				needInner = false
+				if strings.HasPrefix(tl, "main.") || strings.HasPrefix(tl, "verif/") {
+					harness++
+				}
+			}
+			if strings.Contains(tl, "iotaledger/hive.go/") {
+				f := tl[strings.Index(tl, "iotaledger/hive.go/")+len("iotaledger/hive.go/"):]
+				if i := strings.LastIndex(f, "("); i > 0 {
+					f = f[:i]
+				}
+				frames = append(frames, f)
+				inAccess = false
+			}
 		}
 	}
 	sort.Strings(frames)
-	return frames
+	return frames, accesses >= 2 && harness == accesses
 }
 
 func report(p *Property, tier string, seed int64, results []*PartResult, wall float64) int {
